@@ -98,8 +98,74 @@ def aff_form(case, rec):
     return q
 
 
+def part_form(case, rec):
+    """shape partitioning of the output rank with the input rank following, output-stationary loop orders (the lower output level
+    is iterated by range: no input resolves there): the Einsum as written + the partition spec; Lean builds the partitioned form
+    (C04 driver `partitionedForm`: halo-split followers, virtual tile tensor for the range loop)"""
+    import re
+    if len(case["eins"]) != 1:
+        return None
+    e = case["eins"][0]
+    d = rec["yaml"]
+    parts = ((d.get("mapping") or {}).get("partitioning") or {}).get(e["out"]) or {}
+    if len(parts) != 2 or any(t["kind"] != "times" for t in e["terms"]):
+        return None
+    Qs = [k for k, st in parts.items() if len(st) == 1 and st[0].startswith(("uniform_shape", "nway_shape"))]
+    Ws = [k for k, st in parts.items() if st == ["follow(%s)" % (Qs[0] if Qs else "")]]
+    if len(Qs) != 1 or len(Ws) != 1:
+        return None
+    Q, W = Qs[0], Ws[0]
+    q = Q.lower()
+    arg = parts[Q][0][parts[Q][0].index("(") + 1:-1]
+    if not arg.isdigit():
+        return None
+    n = int(arg) if parts[Q][0].startswith("uniform") else (case["ext"][Q] - 1) // int(arg) + 1
+    if n < 1:
+        return None
+    lo = impl_loop_order(rec, e["out"])
+    if lo is None or Q + "1" not in lo or Q + "0" not in lo or any(r.startswith(W) for r in lo):
+        return None
+    ivars = gens.ein_vars(e)
+    followers, terms = [], []
+    for t in e["terms"]:
+        scal, tensors = 1, []
+        for f in t["factors"]:
+            if f[0] == "s":
+                scal *= case["env"][f[1]]; continue
+            for i, (R, acc) in enumerate(zip(case["decl"][f[1]], f[2])):
+                vs = [v for _, v in acc]
+                if q in vs:
+                    if R != W or len(acc) < 2 or any(c < 1 for c, _ in acc):
+                        return None            # another tensor carries the partitioned rank itself (mask operand): not this form
+                    # output-stationary: some other variable of the access is looped after Q0
+                    if not any(lo.index(v.upper()) > lo.index(Q + "0") for v in vs if v != q and v.upper() in lo):
+                        return None
+                    if [f[1], i] not in followers:
+                        followers.append([f[1], i])
+            tensors.append({"name": f[1], "ranks": list(case["decl"][f[1]]), "idx": [{"terms": [[c, v] for c, v in i], "const": 0} for i in f[2]]})
+        terms.append({"scal": scal, "tensors": tensors})
+    if not followers or [i for i in e["oidx"] if len(i) != 1 or i[0][0] != 1]:
+        return None
+    a = [c for t in e["terms"] for f in t["factors"] if f[0] == "t" for R, acc in zip(case["decl"][f[1]], f[2]) if R == W for c, v in acc if v == q][0]
+    loop2, exts2 = [], []
+    for r in lo:
+        if r == Q + "1":
+            loop2.append(q + "1"); exts2.append(max(case["ext"][Q], (case["ext"][W] - 1) // a + 1))
+        elif r == Q + "0":
+            loop2.append(q + "0"); exts2.append(case["ext"][Q])
+        elif r.lower() in ivars:
+            loop2.append(r.lower()); exts2.append(case["ext"][r])
+        else:
+            return None
+    env = {k: int(v) for k, v in case["ext"].items()}
+    env.update({k: int(v) for k, v in case["env"].items() if isinstance(v, int)})
+    env.update({"Q__": case["ext"][Q], "N__": n})
+    return {"op": "nest_aff", "loop": ivars, "exts": [case["ext"][v.upper()] for v in ivars], "out_name": e["out"], "out_vars": [i[0][1] for i in e["oidx"]],
+            "terms": terms, "tree": rec["tree"], "part": {"q": q, "n": n, "followers": followers}, "loop2": loop2, "exts2": exts2, "env": env}
+
+
 def lean_aff_request(case, rec, ex):
-    q = aff_form(case, rec)
+    q = aff_form(case, rec) or part_form(case, rec)
     if q is None:
         return None
     inputs = {k: {tuple(p): v for p, v in pts} for k, pts in ex["inputs"].items()}
